@@ -501,6 +501,19 @@ def cache_check(res, pid, cone, extra=None, n_file=(40, 400), n_cache=(30, 300))
         if fx_harness:
             pr["ok"] = False
             pr["broken"].append({"kind": "harness", "error": [(r.get("error") or "")[-300:] for r in fx_harness[:2]]})
+    wait_path_fail = None
+    if pid == "C09":
+        # the key of a dependent call is computed from what the resolver forwards: both of its paths
+        # (inputs done at submission / parked on the wait list) must forward the same objects
+        import traverse
+        try:
+            bad = traverse.tie(res, 100 if res.tier == "quick" else 600)
+            if bad:
+                wait_path_fail = {"kind": "dep", "case": bad[0][0], "why": "resolver forwards different objects for the same call "
+                                  "(cache key depends on when its inputs finished): %s vs model %s" % (bad[0][1][:300], bad[0][2][:120])}
+        except core.CaseEvalError as ex:
+            pr["ok"] = False
+            pr["broken"].append({"kind": "case-eval", "error": str(ex)[-600:]})
     oracle = ORACLES[pid]
     fails, hits, harness = [], {}, []
     for k, c, r in runs:
@@ -517,6 +530,8 @@ def cache_check(res, pid, cone, extra=None, n_file=(40, 400), n_cache=(30, 300))
                               "schedule": c.get("schedule", [])[:len(r.get("trace", []))], "why": why})
     extra_fails = extra(res, hits) if extra else []
     fails += extra_fails
+    if wait_path_fail:
+        fails.append(wait_path_fail)
     res.cov.update({"evaluations": len(runs), "distinct_nontrivial": len({json.dumps(r.get("trace")) for _, _, r in runs}),
                     "oplist_mismatches": len(tie_bad), "oracle_failures": len(fails), "known_finding_hits": hits,
                     "verdicts": {}, "rule": RULE, "harness_problems": len(harness), "corpus_cases": len(corpus),
